@@ -1,92 +1,44 @@
-"""Per-property configuration of ./check: Lean targets and theorems (proof obligations), harness streams
-(correspondence), hooks (property-specific extra checks), trusted base, non-triviality rules."""
-import os, json, re
+"""Loads the per-property configuration modules tools/props/CNN.py.
 
-TRUSTED_COMMON = [
-    "Lean 4.33.0 kernel; axioms allowed: propext, Classical.choice, Quot.sound (audited with #print axioms on every run)",
-    "hand transcription of the C++ into lean/MultiModel, tied to /repo by the differential run (harness built from /repo's working tree each run)",
-    "C++ ptrdiff_t arithmetic = Lean Int arithmetic with Int.tdiv/Int.tmod (overflow outside every property's quantifier)",
-    "g++ 12 / libstdc++ as the executor of the real templates; the harness' own generator and canonical printer",
-]
+Each module defines PROP (dict, see tools/props/C01.py for the keys) and may define
+  nontrivial(prog_lines, answer_lines) -> bool
+  finding_key(program, impl_lines, model_lines) -> str
+  reproduce_finding(finding, ctx) -> bool            (does the open finding's witness still fail on the real code?)
+  any hook function named in PROP["hooks"]:  hook(ctx) -> {"violations": [...], "stats": {...}, "obligations": n, "discharged": n}
+"""
+import os, sys, importlib.util, glob
 
-VIEW_RULE = ("programs = root extents (D 1..4, sizes 0..6, num_elements <= 240) + 0..7 in-domain view operations drawn from the real view's "
-             "current shape + queries; distinct = different program text; non-trivial = at least one operation and a queried view with >= 2 elements")
+HERE = os.path.dirname(os.path.abspath(__file__))
+sys.path.insert(0, HERE)
+import props_common  # noqa: E402
 
-
-def _views_harness(modes, quick, thorough):
-    return {"name": "views", "src": "views.cpp", "flags": ["-O1", "-g"], "modes": modes, "programs": {"quick": quick, "thorough": thorough}}
-
-
-C01_THEOREMS = [
-    "Multi.C01.root_denotes",
-    "Multi.C01.op_refines",
-    "Multi.C01.reachable_denotes",
-    "Multi.C01.reachable_in_bounds",
-    "Multi.C01.shape_functions_agree",
-    "Multi.C01.strides_are_address_steps",
-    "Multi.C01.paths_agree",
-    "Multi.C01.broadcast_designates_source",
-]
-
-PROPS = {
-    "C01": {
-        "lean_targets": ["MultiProofs.C01"],
-        "lean_module": "MultiProofs.C01",
-        "theorems": C01_THEOREMS,
-        "harnesses": [_views_harness(["zero"], 4800, 320000)],
-        "trusted_base": TRUSTED_COMMON,
-        "assumptions": ["index arithmetic does not overflow ptrdiff_t", "element type int, raw pointers (other pointer types: C11)"],
-        "rule": VIEW_RULE,
-        "level_text": "Theorems (all D, all extents, all finite in-domain op sequences): each operation as coded refines its documented shape/index map; by induction every reachable view denotes the composed map, stays inside the root's storage, and size/sizes/num_elements/is_empty/strides and all access paths agree. The model is tied to /repo by a differential run of generated op sequences through the real templates.",
-        "level_note": "Trusted: Lean kernel (+propext, Classical.choice, Quot.sound), the hand transcription MultiModel/{Layout,View}.lean validated by the correspondence run only, Int for ptrdiff_t. flatted is claimed under the library's own is_flattable guard; diagonal for zero-based leading dimensions; element type int and raw pointers in the correspondence run.",
-    },
-}
+PROPS = {}
+MODS = {}
+for path in sorted(glob.glob(os.path.join(HERE, "props", "C*.py"))):
+    pid = os.path.basename(path)[:-3]
+    spec = importlib.util.spec_from_file_location("props_" + pid, path)
+    mod = importlib.util.module_from_spec(spec)
+    spec.loader.exec_module(mod)
+    PROPS[pid] = mod.PROP
+    MODS[pid] = mod
 
 
 def nontrivial(pid, prog_lines, answer_lines):
-    """a generated program counts as non-trivial if it applies at least one operation and some queried view has >= 2 elements"""
-    has_op = any(l.startswith("v ") or l.startswith("x ") for l in prog_lines)
-    big = False
-    for l in answer_lines:
-        w = l.split()
-        if len(w) >= 2 and w[0] in ("addrs", "elems", "paths") and w[1].lstrip("-").isdigit() and int(w[1]) >= 2:
-            big = True
-        if len(w) >= 2 and w[0] == "iter" and w[1].lstrip("-").isdigit() and int(w[1]) >= 2:
-            big = True
-    return has_op and big
+    f = getattr(MODS[pid], "nontrivial", props_common.nontrivial)
+    return f(prog_lines, answer_lines)
 
 
 def finding_key(pid, program, impl_lines, model_lines):
-    """class of a disagreement, matched against known_findings.json (operation of the last view op + kind of first differing answer)"""
-    ops = [l.split()[3] for l in program if l.startswith("v ") and len(l.split()) > 3]
-    kind = "?"
-    for a, b in zip(impl_lines, model_lines):
-        if a != b:
-            kind = (a.split() or ["?"])[0]
-            break
-    return f"{pid}:{'+'.join(sorted(set(ops)))}:{kind}"
+    f = getattr(MODS[pid], "finding_key", None)
+    if f:
+        return f(program, impl_lines, model_lines)
+    return props_common.finding_key(pid, program, impl_lines, model_lines)
 
 
 def reproduce_finding(f, ctx):
-    """re-run the witness of an open finding against the real code; True if it still fails"""
-    w = f.get("witness", {})
-    if w.get("kind") == "program":
-        import importlib
-        cfg = PROPS[ctx["pid"]]
-        h = [x for x in cfg["harnesses"] if x["src"] == w["harness"]][0]
-        exe, _ = ctx["build_harness"](ctx["pid"], h)
-        if exe is None:
-            return True
-        il, ml, crashed, _ = ctx["replay_program"](exe, w.get("mode", "zero"), w["program"], ctx["build"], "finding")
-        return il != ml or crashed
-    if w.get("kind") == "cpp":
-        src = os.path.join(ctx["build"], "finding.cpp")
-        os.makedirs(ctx["build"], exist_ok=True)
-        open(src, "w").write(w["source"])
-        exe = os.path.join(ctx["build"], "finding.x")
-        rc, out = ctx["sh"](["g++", "-std=c++17", "-w"] + w.get("flags", ["-O1"]) + [f"-I{ctx['repo']}/include", src, "-o", exe] + w.get("libs", []), timeout=600)
-        if rc != 0:
-            return w.get("fails_by") == "compiles" and False
-        rc, out = ctx["sh"]([exe], timeout=120)
-        return rc != 0
-    return True
+    g = getattr(MODS[ctx["pid"]], "reproduce_finding", props_common.reproduce_finding)
+    return g(f, ctx)
+
+
+def hook(pid, name):
+    return getattr(MODS[pid], name)
